@@ -1,13 +1,21 @@
 """Single source for MANIFEST.json (tools/mkmanifest.py)."""
 ENGINES = [
+    {"name": "histories-fresh-interpreter", "path": "vf/props/c17.py", "serves_properties": ["C17"],
+     "kind_free_text": "all construction histories up to a length bound, each executed in a fresh interpreter under a counting RNG installed before import; freshness decided on draw indices"},
     {"name": "bfs-registers", "path": "vf/props/c11.py", "serves_properties": ["C11"],
      "kind_free_text": "explicit-state breadth-first search over operation histories on real Registers objects (history replay, canonical raw-state dedup), dict-of-ints reference model"},
     {"name": "sweep", "path": "vf/props/c20.py", "serves_properties": ["C20"],
      "kind_free_text": "exhaustive loops over small string/integer domains executed on the real helpers, own recogniser as oracle"},
 ]
-FIX_COMMITS = ["e173e89", "69c9427", "3f819f3", "2ac9b91", "83ab516", "2982182", "b4341d3", "f68c828", "1e56e39"]
+FIX_COMMITS = ["e173e89", "69c9427", "3f819f3", "2ac9b91", "83ab516", "2982182", "b4341d3", "f68c828", "1e56e39", "8e8a574", "2622fd6"]
 NOT_APPLICABLE = {}
 CHECKS = {
+    "C17": {
+        "engine": "histories-fresh-interpreter", "level": "model_checking", "design_ref": "DESIGN.md §18",
+        "technique": "exhaustive enumeration of construction histories (all sequences with repetition over 11 artifact kinds, length <= 2 quick / <= 3 thorough), each run on the real code in a fresh interpreter under a counting random source; oracle on draw indices",
+        "text": "Every sequence of artifact constructions up to the bound is executed in its own interpreter with `secrets` replaced before import, under two generator seeds; a self-chosen field must be traceable to draws made during its own artifact's construction, no draw may feed two artifacts or appear in a foreign export, and values must change with the seed. Inside the bound this decides same-process sharing and import-time (cross-process-identical-by-construction) values.",
+        "note": "Trusted: that spsdk.crypto.rng (secrets.*) is the only entropy source for these fields; OpenSSL-internal signature randomness is out of scope; histories longer than the bound are not explored.",
+    },
     "C11": {
         "engine": "bfs-registers", "level": "model_checking", "design_ref": "DESIGN.md §12",
         "technique": "explicit-state model checking of the implementation: BFS over all operation sequences up to depth 3 (quick) / 4-5 (thorough) per generated register layout, state = canonical raw register values, step-wise comparison with a reference model",
